@@ -648,8 +648,24 @@ func (p *Parser) parseSelectStatement() (ast.Statement, error) {
 				// Consume SELECT token before calling parseSelectStatement
 				p.advance() // Consume SELECT
 
+				// A derived table recurses into parseSelectStatement without passing
+				// through parseExpression, so the nesting level is accounted for here
+				// (no defer: this runs once per JOIN of the enclosing loop)
+				p.depth++
+				if p.depth > MaxRecursionDepth {
+					depthErr := goerrors.RecursionDepthLimitError(
+						p.depth,
+						MaxRecursionDepth,
+						models.Location{Line: 0, Column: 0},
+						"",
+					)
+					p.depth--
+					return nil, depthErr
+				}
+
 				// Parse the subquery
 				subquery, err := p.parseSelectStatement()
+				p.depth--
 				if err != nil {
 					return nil, err
 				}
@@ -1068,6 +1084,19 @@ func (p *Parser) parseFromTableReference() (ast.TableReference, error) {
 
 		// Consume SELECT token before calling parseSelectStatement
 		p.advance() // Consume SELECT
+
+		// A derived table recurses into parseSelectStatement without passing
+		// through parseExpression, so the nesting level is accounted for here
+		p.depth++
+		defer func() { p.depth-- }()
+		if p.depth > MaxRecursionDepth {
+			return tableRef, goerrors.RecursionDepthLimitError(
+				p.depth,
+				MaxRecursionDepth,
+				models.Location{Line: 0, Column: 0},
+				"",
+			)
+		}
 
 		// Parse the subquery
 		subquery, err := p.parseSelectStatement()
